@@ -85,6 +85,20 @@ fn handle(req: &Value) -> Value {
             }).collect();
             json!({"cells": cells})
         }
+        "cell_duals" => {
+            // the vertices (as plane triples) of every constructed 3D cell, straight from ConvexCell::build
+            let gens: Vec<DVec3> = req["gens"].as_array().unwrap().iter().map(v3).collect();
+            let periodic = req["periodic"].as_bool().unwrap_or(false);
+            let r = std::panic::catch_unwind(|| {
+                let vi = meshless_voronoi::VoronoiIntegrator::build(&gens, None, v3(&req["anchor"]), v3(&req["width"]), Dimensionality::ThreeD, periodic);
+                let cells: Vec<Value> = vi.cells_iter().map(|c| {
+                    let duals: Vec<Vec<usize>> = c.vertices.iter().map(|v| v.dual.to_vec()).collect();
+                    json!({"idx": c.idx, "n_planes": c.clipping_planes.len(), "duals": duals})
+                }).collect();
+                json!({"cells": cells})
+            });
+            r.unwrap_or_else(|_| json!({"panic": true}))
+        }
         "halfspace_clip" => {
             let hs = meshless_voronoi::HalfSpace::new(v3(&req["n"]), v3(&req["p"]), None, None);
             json!({"r": hs.clip(v3(&req["v"]))})
